@@ -411,6 +411,7 @@ Arguments JobPre {HX JX SX MX} j.
 Arguments JobPost {HX JX SX MX} j.
 Arguments job_events {HX JX SX MX} j.
 Arguments ex_init {HX JX SX MX MT OT CT IT ST DT JT}.
+Arguments NOutputs {CT} names.
 Arguments r_shellcheck {HX JX SX MX diag} sc_run.
 Arguments r_pyflakes {HX JX SX MX diag} py_run.
 Arguments r_id {HX JX SX MX diag} id_job id_conv id_dup.
